@@ -486,6 +486,7 @@ type partsObs struct {
 	NoResp        bool // no response body reader was handed to the caller
 	Warm          bool // the warm-up exchange of the run: seen by the client-level dumper and by its own
 	// request-level dumper (level 2), not by the main request's dumper (level 1)
+	After bool // a request without dumper of its own sent after the main one: client level only
 }
 
 // warmOpt: the request-level dumper of the warm-up request (EnableDumpTo: everything on, one writer)
@@ -496,6 +497,9 @@ var warmOpt = optSpec{Set: [7]bool{true}, On: [4]bool{true, true, true, true}}
 func levelsFor(cfg dumpCfg, x partsObs) []*optSpec {
 	if x.Warm {
 		return []*optSpec{cfg.Client, nil, &warmOpt}
+	}
+	if x.After {
+		return []*optSpec{cfg.Client, nil, nil}
 	}
 	return []*optSpec{cfg.Client, cfg.Request, nil}
 }
@@ -688,18 +692,33 @@ func coqObsLevel(m map[[2]int][]byte, pl *pool, only, as int) string {
 // a warm-up exchange the dumpers see different exchange lists, so each dumper gets its own case
 // (dumpers do not see each other: C13_routing_exact): client level [warm-up; main...], the main
 // request's dumper [main...], the warm-up request's dumper [warm-up].
-func emitExch(r *hk.Run, cfg dumpCfg, coqX []string, warm bool, sink map[[2]int][]byte, pl *pool, desc interface{}, key string, nt bool) {
-	if !warm || len(coqX) == 0 {
+func emitExch(r *hk.Run, cfg dumpCfg, coqX []string, xs []partsObs, sink map[[2]int][]byte, pl *pool, desc interface{}, key string, nt bool) {
+	split := false
+	for _, x := range xs {
+		split = split || x.Warm || x.After
+	}
+	if !split || len(coqX) != len(xs) {
 		r.Add(hk.Case{Coq: pl.wrap(fmt.Sprintf("ExchCase %s %s %s %s", coqOptOpt(cfg.Client, 0), coqOptOpt(cfg.Request, 1), hk.CoqList(coqX), coqObs(sink, pl))), Desc: desc}, key, nt)
 		return
+	}
+	var main, warm []string
+	for k, x := range xs {
+		switch {
+		case x.Warm:
+			warm = append(warm, coqX[k])
+		case !x.After:
+			main = append(main, coqX[k])
+		}
 	}
 	if cfg.Client != nil {
 		r.Add(hk.Case{Coq: pl.wrap(fmt.Sprintf("ExchCase %s None %s %s", coqOptOpt(cfg.Client, 0), hk.CoqList(coqX), coqObsLevel(sink, pl, 0, 0))), Desc: desc}, key+"|client", nt)
 	}
 	if cfg.Request != nil {
-		r.Add(hk.Case{Coq: pl.wrap(fmt.Sprintf("ExchCase None %s %s %s", coqOptOpt(cfg.Request, 1), hk.CoqList(coqX[1:]), coqObsLevel(sink, pl, 1, 1))), Desc: desc}, key+"|request", nt)
+		r.Add(hk.Case{Coq: pl.wrap(fmt.Sprintf("ExchCase None %s %s %s", coqOptOpt(cfg.Request, 1), hk.CoqList(main), coqObsLevel(sink, pl, 1, 1))), Desc: desc}, key+"|request", nt)
 	}
-	r.Add(hk.Case{Coq: pl.wrap(fmt.Sprintf("ExchCase None %s %s %s", coqOptOpt(&warmOpt, 2), hk.CoqList(coqX[:1]), coqObsLevel(sink, pl, 2, 1))), Desc: desc}, key+"|warmup", nt)
+	if len(warm) > 0 {
+		r.Add(hk.Case{Coq: pl.wrap(fmt.Sprintf("ExchCase None %s %s %s", coqOptOpt(&warmOpt, 2), hk.CoqList(warm), coqObsLevel(sink, pl, 2, 1))), Desc: desc}, key+"|warmup", nt)
+	}
 }
 
 // pool: per-case dictionary of byte strings that occur several times in one case (the header
